@@ -219,6 +219,29 @@ def order_worker(job):
                         break
                 if bad:
                     st.violate("ancestor-order", None, {"args": args, "problem": bad, "sequence": paths[:30]}, {"args": args, "tree": [n.to_json() for n in nodes]})
+                    continue
+                # exact sequence in the follow modes too, wherever the reference walk is well defined (no loop, no error)
+                import refwalk
+                mind = int(args[args.index("-mindepth") + 1]) if "-mindepth" in args else 0
+                maxd = int(args[args.index("-maxdepth") + 1]) if "-maxdepth" in args else None
+                ents, w = refwalk.walk_list([root], mode[1], mind, maxd, df, True, sb)
+                if w.errors or w.out_of_domain or w.optional:
+                    st.inc("follow_mode_sequences_not_judged(loop or error in the tree)")
+                    continue
+                exp = [e.path for e in ents]
+                st.inc("follow_mode_sequences_compared")
+                if paths != exp:
+                    sig = None
+                    if mode == "-H" and root == "lroot" and df and sorted(paths) == sorted(exp):
+                        # known mechanism: WalkDir does not defer a starting point that is a followed symbolic link, so in
+                        # contents-first order every directory is released one level late (after its later siblings). The
+                        # signature: same entries, non-directories in the expected relative order, and every directory
+                        # still after everything beneath it (already checked above).
+                        isdir = {e.path: e.is_dir for e in ents}
+                        if [p for p in paths if not isdir[p]] == [p for p in exp if not isdir[p]]:
+                            sig = "H-symlinked-root-depth-directory-released-late"
+                    st.violate("sequence-differs", sig, {"args": args, "expected": exp[:25], "observed": paths[:25]},
+                               {"args": args, "tree": [n.to_json() for n in nodes]})
             common.force_rmtree(sb)
     finally:
         common.force_rmtree(base)
